@@ -46,6 +46,12 @@ impl<'a> ParseState<'a> {
             // This should be optimized out in most cases
             panic!("String length overrun in advance()")
         };
+        #[cfg(peginator_verif)]
+        assert!(
+            self.partial_string.is_char_boundary(length),
+            "peginator_verif: advance({length}) at byte {} is not on a UTF-8 character boundary",
+            self.start_index
+        );
         Self {
             start_index: self.start_index + length,
             // SAFETY:
